@@ -441,9 +441,13 @@ func (w *d2World) fetch(id, path string) {
 			object = lib.CasWrite(e.data, cs, 0, nil)
 			encName = "identity-hdr"
 		} else {
-			enc := pickEncoder(w.rng, len(e.data))
-			object = lib.CasWrite(e.data, cs, 1, enc.fn)
+			enc := newChunkEnc(w.rng, len(e.data), 0)
+			fn, span := winStats.observe(enc.fn)
+			object = lib.CasWrite(e.data, cs, 1, fn)
+			enc.done()
 			encName = enc.name
+			_, hi := span()
+			w.r.Count("dir2.fetch.object-window." + windowClass(hi))
 		}
 	}
 	w.px.SetRaw(entryKind(e.kind), e.hash, object, n)
